@@ -1,7 +1,7 @@
 #!/bin/bash
 # every seeded change must be reported (exit 1 + VIOLATION line) by the check named in its meta.json.
 # runs on a scratch worktree of /repo so that /repo itself is not touched: usage tools_seeded_regression.sh [ids...]
-WT=/tmp/wtreg; CACHE=/tmp/wtreg_cache
+WT=${WTREG:-/tmp/wtreg}; CACHE=${WTREG_CACHE:-/tmp/wtreg_cache}
 cd /verif
 if [ ! -d $WT ]; then git -C /repo worktree add --detach $WT HEAD >/dev/null 2>&1; fi
 git -C $WT checkout -q --detach $(git -C /repo rev-parse HEAD); git -C $WT checkout -q -- .
